@@ -532,7 +532,8 @@ pub fn gen_op(rng: &mut Rng, world: &World, si: usize, refusal_heavy: bool) -> O
             }
         }
         5 => Op::Clear,
-        6 => Op::ReplaceAll(gen_recs(rng, 4), rng.chance(if refusal_heavy { 1 } else { 3 }, 4)),
+        // sometimes an empty replacement (either outcome is acceptable, a refusal must change nothing)
+        6 => Op::ReplaceAll(if rng.chance(1, 6) { vec![] } else { gen_recs(rng, 4) }, rng.chance(if refusal_heavy { 1 } else { 3 }, 4)),
         _ => Op::Reopen,
     }
 }
@@ -682,7 +683,9 @@ async fn exec_typed<T: EvKind>(
         Op::ReplaceAll(specs, good) => {
             let recs = recs_of::<T>(specs).await;
             let commits = model_commits(&recs);
-            let checkpoint = if *good {
+            let checkpoint = if commits.is_empty() {
+                CommitProof::default()
+            } else if *good {
                 tree_from(&commits).head().unwrap()
             } else {
                 let mut c = commits.clone();
@@ -695,7 +698,8 @@ async fn exec_typed<T: EvKind>(
                 checkpoint,
             };
             let out = oc(log.replace_all_events(&diff).await);
-            (out, Expect { applied: Some(recs), must_apply: Some(*good) })
+            let must = if recs.is_empty() { None } else { Some(*good) };
+            (out, Expect { applied: Some(recs), must_apply: must })
         }
         Op::Reopen => unreachable!(),
     }
